@@ -33,6 +33,15 @@ var (
 )
 
 type assertFailed struct{ msg string }
+type engineOnly struct{ why string }
+
+// EngineOnly marks the rest of this run as not replayable natively (it needs
+// an environment that only exists as a stub under the engine, e.g. a dial).
+func EngineOnly(why string) {
+	if !Symbolic() {
+		panic(engineOnly{why})
+	}
+}
 type assumeFailed struct{ msg string }
 
 func next(name string) uint64 {
@@ -327,6 +336,9 @@ func RunReplay(table map[string]func()) {
 			defer func() {
 				if r := recover(); r != nil {
 					switch p := r.(type) {
+					case engineOnly:
+						o.Result = "engine-only"
+						o.Detail = p.why
 					case assumeFailed:
 						st.diverged = p.msg
 					default:
@@ -342,6 +354,7 @@ func RunReplay(table map[string]func()) {
 			f()
 		}()
 		switch {
+		case o.Result == "engine-only" && len(st.failed) == 0:
 		case len(st.failed) > 0:
 			// failures recorded before a later assumption failed still stand:
 			// the solver's model only fixes the symbols created up to the violation
